@@ -22,6 +22,10 @@ def gen():
 
 
 def run(tier, seed, selftest=False, replay=None):
+    if replay:
+        import ev_common
+        if ev_common.is_ev_case(replay):
+            return ev_common.replay_ev(PID, ["instantiate"], replay)
     t0 = time.time()
     T = lambda what: os.environ.get("VERIF_VERBOSE") and print("[c08] %s at %.1fs" % (what, time.time() - t0), flush=True)
     rnd = random.Random(seed)
